@@ -66,7 +66,8 @@ def var_type(kind, first_atom):
     return VT[k][first_atom % len(VT[k])]
 
 
-def render(rng, items, natoms, snapshot, steps, unit="fs"):
+def render(rng, items, natoms, snapshot, steps, exp=-15):
+    """exp: timescale exponent -15..0; all times must be multiples of 10^(exp+15) fs"""
     out = vcd_writer.VcdOut(rng)          # reuse the leaf bookkeeping (distinct signals, widths, kinds)
     hier = bytearray()
     nscopes = [0]
@@ -144,7 +145,7 @@ def render(rng, items, natoms, snapshot, steps, unit="fs"):
                 break
         drivers.append(d)
 
-    div = 1 if unit == "fs" else 1000
+    div = 10 ** (exp + 15)
     # merge the steps of one time (FST has no delta cycles): per distinct time the set of touched atoms and the final values
     vals = {a + 1: v for a, v in enumerate(snapshot[1])}
     t0 = snapshot[0] // div
@@ -260,7 +261,7 @@ def render(rng, items, natoms, snapshot, steps, unit="fs"):
     hblock = bytes([4]) + u64(16 + len(hz)) + u64(len(hier)) + hz
     last_time = events[-1][0]
     header = (bytes([0]) + u64(329) + u64(t0) + u64(last_time) + struct.pack("<d", math.e) + u64(0) + u64(nscopes[0]) + u64(nvars[0]) + u64(nh) +
-              u64(nblocks) + struct.pack("b", -15 if unit == "fs" else -12) + b"verif fst writer".ljust(128, b"\x00") + b"today".ljust(119, b"\x00") +
+              u64(nblocks) + struct.pack("b", exp) + b"verif fst writer".ljust(128, b"\x00") + b"today".ljust(119, b"\x00") +
               bytes([0]) + u64(0))
     assert len(header) == 330
     return header + bytes(blocks) + geom + hblock
